@@ -109,6 +109,30 @@ Definition read_magnet (m : bytes) : mgres :=
       match first_hash (query_xts q) with Some h => MgOk h | None => MgErr end
   end.
 
+(* the other parameters of a link (net/url specified as above: no escapes, so values are literal): every
+   tr value that tracker.New accepts is a tier of its own, as and ws values that webseed.New accepts are
+   GetRight web seeds (as before ws), the first dn is the name; a bare hash has none of them *)
+Definition param_values (k : bytes) (q : bytes) : list bytes :=
+  flat_map (fun p => match split_at 61 p with
+                     | Some (k', v) => if bytes_eqb k' k then [v] else []
+                     | None => if bytes_eqb p k then [[]] else []
+                     end) (filter nonempty (split_on 38 q [])).
+Definition key_dn : bytes := ascii_bytes "dn".
+Definition key_tr : bytes := ascii_bytes "tr".
+Definition key_as : bytes := ascii_bytes "as".
+Definition key_ws : bytes := ascii_bytes "ws".
+Definition query_of (m : bytes) : bytes := match split_at 63 (snd (get_scheme m)) with Some (_, q) => q | None => [] end.
+Record mparams := { mp_name : bytes; mp_tiers : list (list bytes); mp_webseeds : list bytes }.
+Definition magnet_params (m : bytes) : mparams :=
+  match hash_parse m with
+  | Some _ => {| mp_name := []; mp_tiers := []; mp_webseeds := [] |}
+  | None =>
+    let q := query_of m in
+    {| mp_name := hd [] (param_values key_dn q);
+       mp_tiers := map (fun u => [u]) (filter url_ok (param_values key_tr q));
+       mp_webseeds := filter http_url (param_values key_as q) ++ filter http_url (param_values key_ws q) |}
+  end.
+
 (* the link storrent and other clients write for a hash: lower-case hex after magnet:?xt=urn:btih: *)
 Definition hexdigit (v : N) : N := if v <? 10 then 48 + v else 87 + v.
 Definition hex_encode (h : bytes) : bytes := flat_map (fun b => [hexdigit (b / 16); hexdigit (b mod 16)]) h.
